@@ -157,7 +157,7 @@ def tuckerAlsRun (ops : NumOps α) (nvecs : Nat → Dense α → Nat → Nat →
   if maxiters < 0 then .error .reject
   else
     let rank := parseRank rank N
-    let order := match dimorder with | none => List.range N | some o => o
+    let order := modeOrder dimorder N
     if !isPermOf order N then .error .reject
     else
       match initGuess nvecs uniform X rank order init with
